@@ -66,7 +66,7 @@ package dispatch
 //@   assigns deref(counter)
 
 //@ func newRoute
-//@   props C07 C06
+//@   props C07 C06 C15
 //@   requires cr != nil && counter != nil
 //@   maypanic
 //@   ensures [node] result != nil && fresh(result) && result.parent == parent && result.Continue == cr.Continue
@@ -185,7 +185,7 @@ package dispatch
 // the call never returns without a successful insert unless it reported the refusal, and maintenance removes and
 // un-counts only groups it observed destroyed.
 //@ func (*Dispatcher).groupAlert
-//@   props C06 C05
+//@   props C06 C05 C14
 //@   abstract
 //@   nosafe
 //@   requires alert != nil && route != nil
